@@ -764,13 +764,16 @@ def ns_class_unit():
         documented rules, and an accepted association is recorded on both classes."""
         import itertools as _it
         obs = []
-        for n_bases, base_fields, base_assoc, own, all_defaults, rc in _it.product((1, 2), (False, True), (False, True), (False, True), (True, False),
-                                                                                  ("none", "fresh", "has-args", "not-a-class")):
+        for n_bases, base_fields, base_assoc_how, own, all_defaults, rc in _it.product((1, 2), (False, True), (False, True, "inherited"), (False, True), (True, False),
+                                                                                      ("none", "fresh", "has-args", "not-a-class")):
+            # "inherited": the base is an unassociated-looking subclass (two or more levels down) of an associated class: the association
+            # it sees is its ancestor's, nothing about it is in the base's own namespace
+            base_assoc = bool(base_assoc_how)
             if base_assoc and not base_fields:
                 continue            # an associated class has fields (data invariant established by this very function)
             if not own and not all_defaults:
                 continue
-            tag = f"bases={n_bases},base-fields={base_fields},base-associated={base_assoc},own-fields={own},defaults={'all' if all_defaults else 'one-missing'},render_cls={rc}"
+            tag = f"bases={n_bases},base-fields={base_fields},base-associated={base_assoc_how},own-fields={own},defaults={'all' if all_defaults else 'one-missing'},render_cls={rc}"
             eng = ctx.engine(f"C16/namespace-class[{tag}]", "C16")
             eng.default_replay = "C16.namespace_classes"
             st = State()
@@ -792,6 +795,7 @@ def ns_class_unit():
             base_rc = st.new("RenderableMeta", {"cid": 7, "__name__": "BaseRenderCls", "Args": None, "_ALL_DEFAULT_ARGS": st.new("dict", {"@items": {}})})
             base_fields_map = st.new("dict", {"@items": ({"x": 0} if base_fields else {})})
             base = st.new("nsclass", {"_FIELDS": base_fields_map, "_associated": base_assoc, "_RENDER_CLS": base_rc if base_assoc else None, "__name__": "Base"})
+            st.H(base)["__dict__"] = st.new("dict", {"@items": ({"_FIELDS": base_fields_map, "_associated": True, "_RENDER_CLS": base_rc} if base_assoc_how is True else {})})
             bases = (base,) if n_bases == 1 else (base, st.new("nsclass", {"_FIELDS": st.new("dict", {"@items": {}}), "_associated": False, "__name__": "Other"}))
             fields = ("a", "b") if own else ()
             items = {}
@@ -873,3 +877,85 @@ def ns_class_unit():
 
 
 ns_class_unit()
+
+
+# ------------------------------------------------------------------------------------------------ ArgsNamespace.update: fields of one namespace
+@unit("C16", "_types:ArgsNamespace.update")
+def u_ns_update(ctx):
+    """`ArgsNamespace.update(**fields)` (the callee `RenderArgs.update(render_cls, **fields)` relies on): for every choice of which
+    known fields are given and whether an unknown name is among them - an unknown name, alone or next to known ones, is rejected with
+    UnknownArgsFieldError; otherwise the result is a NEW namespace of the same class holding the given values over the current ones;
+    no fields at all returns the namespace itself; the namespace updated is never altered."""
+    import itertools as _it
+    obs = []
+    for give_a, give_b, give_unknown in _it.product((False, True), repeat=3):
+        tag = f"given={'a' * give_a}{'b' * give_b}{'+unknown' * give_unknown}" if (give_a or give_b or give_unknown) else "given=nothing"
+        eng = ctx.engine(f"C16/ArgsNamespace.update[{tag}]", "C16")
+        eng.default_replay = "C16.ns_update"
+        st = State()
+        for exc, par in (("UnknownArgsFieldError", "RenderArgsError"), ("RenderArgsError", "RenderArgsDataError"), ("RenderArgsDataError", "RenderableError")):
+            eng.genv[exc] = ClassV(exc)
+            eng.exc_parents[exc] = par
+        eng.genv["ArgsNamespace"] = ClassV("ArgsNamespace")
+        cur_a, cur_b, new_a, new_b, new_u = z3.Ints("current_a current_b given_a given_b given_unknown")
+        rc = st.new("RenderableMeta", {"__name__": "Target"})
+        known = st.new("dict", {"@items": {"a": 0, "b": 0}})
+        nscls = st.new("nscls", {"_FIELDS": known, "_RENDER_CLS": rc})
+        self_ = st.new("ArgsNamespace", {"a": cur_a, "b": cur_b})
+        eng.genv["type"] = Fn(lambda e, s, a, k: [(nscls, s)] if isinstance(a[0], Ref) and a[0].cls == "ArgsNamespace" else _b_type(e, s, a, k))
+        eng.methods[("dict", "keys")] = lambda e, s, recv, a, k: [(frozenset(s.H(recv)["@items"]), s)]
+
+        def as_dict(e, s, recv, a, k):
+            s = e.fork(s)
+            return [(s.new("dict", {"@items": {"a": s.H(recv)["a"], "b": s.H(recv)["b"]}}), s)]
+        eng.methods[("ArgsNamespace", "as_dict")] = as_dict
+
+        def ns_new(e, s, recv, a, k):
+            s = e.fork(s)
+            return [(s.new("ArgsNamespace", {"fresh": True, "of": a[0] if a else None}), s)]
+        eng.methods[("nscls", "__new__")] = ns_new
+
+        def super_(e, s, a, k):
+            return [(Rec("super-of-ArgsNamespace", {"obj": a[1] if len(a) > 1 else None}), s)]
+        eng.genv["super"] = Fn(super_)
+
+        def base_init(e, s, v):
+            def f(e2, s2, a, k):
+                s2 = e2.fork(s2)
+                obj = v.f["obj"]
+                if not isinstance(obj, Ref) or not isinstance(a[0], Ref):
+                    raise Unsupported("base __init__ call shape")
+                s2.H(obj)["initialised_with"] = dict(s2.H(a[0])["@items"])
+                return [(None, s2)]
+            return [(Fn(f), s)]
+        eng.attrs[("super-of-ArgsNamespace", "__init__")] = base_init
+        items = {}
+        if give_a:
+            items["a"] = new_a
+        if give_b:
+            items["b"] = new_b
+        if give_unknown:
+            items["c"] = new_u
+        fields = st.new("dict", {"@items": items})
+        st.env.update(self=self_, fields=fields)
+        before = dict(st.H(self_))
+        outs = run_function(eng, ctx.fn(TY, "ArgsNamespace.update"), st)
+        for kind, val, s in outs:
+            eng.oblige(f"the-namespace-updated-is-not-altered@{kind}", s, all(s.H(self_).get(k_) is v_ for k_, v_ in before.items()) and set(s.H(self_)) == set(before), kind="exit")
+            if kind == "raise":
+                eng.oblige("rejected-only-for-an-unknown-field,with-UnknownArgsFieldError", s, And(give_unknown, val.cls == "UnknownArgsFieldError"), kind="raise")
+                continue
+            eng.oblige("an-unknown-field-is-never-accepted(alone-or-next-to-known-ones)", s, not give_unknown, kind="post")
+            if give_unknown:
+                continue
+            if not (give_a or give_b):
+                eng.oblige("nothing-given:the-namespace-itself", s, val is self_ or (isinstance(val, Ref) and val.id == self_.id), kind="post")
+                continue
+            ok = isinstance(val, Ref) and val.id != self_.id and s.H(val).get("fresh") is True and s.H(val).get("of") is nscls
+            eng.oblige("a-new-namespace-of-the-same-class", s, ok, kind="post")
+            got = s.H(val).get("initialised_with") if ok else None
+            want = {"a": new_a if give_a else cur_a, "b": new_b if give_b else cur_b}
+            eng.oblige("holds-the-given-values-over-the-current-ones,every-field,nothing-else", s,
+                       got is not None and set(got) == {"a", "b"} and all(got[k_] is want[k_] for k_ in want), kind="post")
+        obs += eng.obligations
+    return obs
